@@ -17,6 +17,8 @@ echo "== demo with change"; (eval "$DEMO_CMD" 2>&1 | grep -- "^--- FAIL\|^ok\|^F
 git apply -R $S/patch.diff && echo "== demo without change" && (eval "$DEMO_CMD" 2>&1 | grep -- "^--- FAIL\|^ok\|^FAIL\|^PASS" | head -5)
 git apply $S/patch.diff
 git -C $WT diff --stat | tail -1
+# the demo test file stays in _seed/; it is moved out of the package so that it cannot clash with the harness files in the native replay build
+find $WT -name 'zz_seed_demo_test.go' -not -path '*/_seed/*' -delete
 mkdir -p /tmp/seedout/$NAME
 echo "== check on the worktree with the change"
 (cd /verif && VCHECK_REPO_DIR=$WT VCHECK_OUT_DIR=/tmp/seedout/$NAME timeout 1800 ./bin/vcheck $PROP --tier quick "$@" 2>&1 | grep "^VIOLATION\|^  assertion\|exit\|MISMATCH\|INCONCLUSIVE\|KNOWN" | cut -c1-220 | sort | uniq -c | head -12)
